@@ -320,6 +320,8 @@ def rename_exports(case, exo):
         new = exo[i % len(exo)]
         if i >= len(exo) or new in taken:
             new = "%s%d" % (new, i)
+        while new in taken or new in exo[i + 1 :]:  # export names are unique in a module
+            new += "_%d" % i
         taken.add(new)
         ren[e["name"]] = new
         exports.append(dict(e, name=new))
